@@ -105,9 +105,11 @@ def _model_check(res, tier):
     from concurrent.futures import ThreadPoolExecutor
     nw = max(2, (os.cpu_count() or 4) // len(cfgs))
     with ThreadPoolExecutor(max_workers=len(cfgs)) as ex:          # the TLC runs side by side
-        futs = [ex.submit(tlc.run, "RTLIRTypes", cfg_text=_model_cfg(sw, nums, lh, tws, depth), coverage=True,
+        # per-action coverage is collected (and required) for the two small configurations only
+        futs = [ex.submit(tlc.run, "RTLIRTypes", cfg_text=_model_cfg(sw, nums, lh, tws, depth),
+                          coverage=name in ("core", "loopvar"),
                           extra=["-continue"], deadlock=False, timeout=3000, workers=nw, heap="4g")
-                for _, (sw, nums, lh, tws, depth) in cfgs]
+                for name, (sw, nums, lh, tws, depth) in cfgs]
         runs = [f.result() for f in futs]
     for (name, (sw, nums, lh, tws, depth)), r in zip(cfgs, runs):
         res.add_tlc(r)
@@ -116,6 +118,8 @@ def _model_check(res, tier):
         if r.distinct < 100:
             raise MachineryError("RTLIRTypes model (%s) explored only %d states" % (name, r.distinct))
         for act in MODEL_ACTIONS:
+            if name not in ("core", "loopvar"):
+                break
             if act == "Retarget" and len(tws) < 2:
                 continue
             if r.coverage.get(act, (0, 0))[1] == 0:
@@ -282,14 +286,33 @@ def _int_arith(nodes, pos):
     ops = [nodes[n["a"] - 1], nodes[n["b"] - 1]]
     if any(o["rk"] != "int" for o in ops):
         return None
-    src, todo = set(), [n["a"], n["b"]]          # where the run-time ints come from
+    return "%s[%s]" % (n["k"], _int_sources(nodes, [n["a"], n["b"]]))
+
+
+def _int_sources(nodes, todo):
+    """where the run-time ints of an expression come from: loopvar / ifexp / cmp / ..."""
+    src, todo = set(), list(todo)
     while todo:
         c = nodes[todo.pop() - 1]
         if c["k"] in ("loopvar", "ifexp", "cmp", "tmp", "elem", "field"):
             src.add(c["k"])
         if c["k"] not in ("cmp", "tmp", "loopvar"):
-            todo += [c[f] for f in _OPERANDS.get(c["k"], ()) if f in c] + ([c["c"]] if c["k"] == "ifexp" else [])
-    return "%s[%s]" % (n["k"], ",".join(sorted(src)))
+            todo += [c[f] for f in _OPERANDS.get(c["k"], ()) if f in c]
+    return ",".join(sorted(src))
+
+
+def _int_unop_under(nodes, pos):
+    """a unary ~ / - below node pos whose operand is a Python int at run time although the checker sizes it
+    explicitly (comparison of two ints, if-expression with an int branch): the result is a negative int"""
+    todo = [pos]
+    while todo:
+        p = todo.pop()
+        c = nodes[p - 1]
+        if c["k"] == "unop" and c["op"] in ("~", "-") and nodes[c["a"] - 1]["rk"] == "int" and nodes[c["a"] - 1]["sx"]:
+            return "unop[%s]" % _int_sources(nodes, [c["a"]])
+        todo += [c[f] for f in (("v",) if c["k"] == "assign" else _OPERANDS.get(c["k"], ())) if f in c]
+        todo += c.get("args", []) if c["k"] == "concat" else []
+    return None
 
 
 def _context(nodes, pos):
@@ -318,6 +341,9 @@ def _key_for(err, pos, rec):
         lit = _literal_cause(nodes)
         if lit:
             return lit, None
+        iu = _int_unop_under(nodes, first) if first else None
+        if iu:
+            return "int-arith-not-folded:" + iu, nodes[first - 1]
         return "%s:%s" % (err, _kclass(nodes, first) if first else "?"), (nodes[first - 1] if first else None)
     n = nodes[pos - 1]
     lit = _literal_cause([n]) if n["k"] == "num" else None
@@ -328,6 +354,11 @@ def _key_for(err, pos, rec):
         return "int-arith-not-folded:" + ia, n
     key = "%s:%s" % (err, _kclass(nodes, pos))
     if not n["sx"] or err.startswith("inferred"):
+        par, _ = _parent(nodes, pos)
+        if par is not None and not par["sx"] and par["k"] in _OPERANDS:
+            # an operand of an inferred compound (e.g. of a folded constant expression, a branch of an if-expression)
+            ppos = nodes.index(par) + 1
+            key += "<" + ("folded-constant" if _is_const(nodes, ppos) else par["k"])
         key += "@" + _context(nodes, pos)
     return key, n
 
@@ -631,6 +662,7 @@ def _generated(res, tier, workdir):
     blocks += L.literal_blocks(L.literal_values(70))
     blocks += L.context_literal_blocks(R, 192 if quick else 1920)
     blocks += L.loop_blocks()
+    blocks += L.shape_blocks()
     recs = _observe(blocks, workdir)
     good = _prepare(res, recs, "generated")
     kinds = collections.Counter(n["k"] for r in good for n in r["nodes"])
@@ -756,7 +788,8 @@ def run(res, tier):
              "TLC model graph (spec->code), random blocks over signals of widths %s with literals up to 2^70 at "
              "2^k / 2^k+-1 boundaries, loops, temporaries, struct fields, if-expressions, constant slices, "
              "(un)equal shifts and casts (10%% deliberately ill-sized choices; a clean family without), "
-             "`t = <literal>` and literal-against-explicit-context families, and every update block of the repo's "
+             "`t = <literal>`, literal-against-explicit-context, loop and mixed inferred/explicit shape families, and every "
+             "update block of the repo's "
              "Case* components that type-check; distinct = distinct source text" % L.WIDTHS)
     res.assume("run-time ints have no width: the static width must hold them (statement says 'equals the width of "
                "the value the simulator computes')")
